@@ -162,7 +162,7 @@ pub fn c02(cx: &Ctx) -> (Vec<Violation>, Cover) {
                 }
                 _ => {
                     if !busy && a.sys_alive_at(d.post, e.inst) == Some(true) && !once {
-                        let n = a.runs.iter().filter(|r| r.inst == e.inst && r.parent == Some(d.cmd) && r.pos > d.pre && r.pos < d.post).count();
+                        let n = a.runs_in(d.pre, d.post).iter().filter(|r| r.inst == e.inst && r.parent == Some(d.cmd) && r.pos > d.pre && r.pos < d.post).count();
                         if n == 0 {
                             v.push(Violation::new("C02", "C02/run-command/never-ran/idle", format!("{:?} did not run idle living instance {}", c.act, e.inst), d.pre));
                         }
@@ -333,7 +333,7 @@ pub fn c18(cx: &Ctx) -> (Vec<Violation>, Cover) {
             }
             Key::Ins(..) => {
                 // an insertion on a dead entity must not trigger anything (mutations: tolerance 7)
-                let n = a.runs.iter().filter(|r| r.parent == Some(d.cmd) && keys_of_obs(&r.obs).contains(&d.key)).count();
+                let n = a.runs_in(d.pre, d.post).iter().filter(|r| r.parent == Some(d.cmd) && keys_of_obs(&r.obs).contains(&d.key)).count();
                 if n > 0 {
                     v.push(Violation::new(
                         "C18",
